@@ -102,8 +102,10 @@ pub fn run(ctx: &Ctx) -> Report {
     // per worker: one runner per configuration + the checked hooks runner as the gate
     let queue = Arc::new(Mutex::new(programs.into_iter()));
     let results: Arc<Mutex<(usize, usize, usize, HashSet<u64>, Vec<(String, serde_json::Value)>, BTreeMap<String, usize>, Vec<serde_json::Value>)>> = Arc::new(Mutex::new((0, 0, 0, HashSet::new(), Vec::new(), BTreeMap::new(), Vec::new())));
+    let flaky_timeouts: Arc<Mutex<Vec<String>>> = Arc::new(Mutex::new(Vec::new()));
     std::thread::scope(|scope| {
         for _ in 0..ctx.workers {
+            let flaky_timeouts = flaky_timeouts.clone();
             let queue = queue.clone();
             let results = results.clone();
             let cfgs = &cfgs;
@@ -139,6 +141,31 @@ pub fn run(ctx: &Ctx) -> Report {
                         let o = r.call(&mut mk(None));
                         obs.push(observe(&o));
                     }
+                    // a disagreement is observed twice before it is reported; observations that change
+                    // from one run to the next are a machinery failure, not a verdict
+                    if obs.iter().collect::<HashSet<_>>().len() > 1 {
+                        let mut again: Vec<String> = Vec::new();
+                        for r in runners.iter_mut() {
+                            let o = r.call(&mut mk(None));
+                            again.push(observe(&o));
+                        }
+                        if again != obs {
+                            // the second round differs from the first.  With a timeout involved that can be
+                            // the machine: no verdict.  Otherwise a configuration is not even deterministic
+                            // (clock() is excluded, addresses are normalised): the harness cannot cause a
+                            // crash, a panic or different printed lines, so this is reported with both rounds.
+                            if again.iter().chain(obs.iter()).any(|o| o.contains("TIMEOUT")) {
+                                // (decided at the end: a machinery failure unless real disagreements were found)
+                                flaky_timeouts.lock().unwrap().push(format!("{}: {:?} vs {:?}", name, obs, again));
+                                continue;
+                            }
+                            for (k, o) in again.iter().enumerate() {
+                                if obs[k] != *o {
+                                    obs[k] = format!("{}  // second round: {}", obs[k], o);
+                                }
+                            }
+                        }
+                    }
                     let mut res = results.lock().unwrap();
                     res.0 += 1;
                     res.1 += obs.len();
@@ -161,6 +188,12 @@ pub fn run(ctx: &Ctx) -> Report {
         }
     });
     let (compared, runs, gated, outcomes, violations, per_cfg, samples) = Arc::try_unwrap(results).ok().unwrap().into_inner().unwrap();
+    {
+        let flaky = flaky_timeouts.lock().unwrap();
+        if !flaky.is_empty() && violations.is_empty() {
+            crate::pool::machinery_failure(&format!("C10: {} programs timed out in one of two rounds and nothing else disagreed: {}", flaky.len(), flaky[0]));
+        }
+    }
     for (c, _) in &cfgs {
         if per_cfg.get(c).copied().unwrap_or(0) == 0 {
             crate::pool::machinery_failure(&format!("C10: configuration {} produced no output at all", c));
@@ -172,7 +205,7 @@ pub fn run(ctx: &Ctx) -> Report {
     report.cov("traces_validated_against_impl", json!(runs));
     report.cov("distinct_nontrivial", json!(outcomes.len()));
     report.cov("exhaustive", json!(true));
-    report.cov("rule", json!("configurations: the dev profile and the release profile with each subset of {safe_active_fiber, safe_class_lookup, safe_stack, safe_vm_opcodes, debug_stress_gc} (quick: none and all; thorough: all 32, plus dev with all switches), built from /repo's working tree WITHOUT the verification hooks; programs: every repository script (with its module table; scripts calling clock() excluded) and every 4th/2nd program of the C05/C06/C07/C08/C18 corpora; each program runs on every configuration and the printed lines and outcome (addresses normalised) must be identical. Programs on which the checked build panics are excluded (C02's verdict). distinct_nontrivial = distinct observed outcomes."));
+    report.cov("rule", json!("configurations: the dev profile and the release profile with each subset of {safe_active_fiber, safe_class_lookup, safe_stack, safe_vm_opcodes, debug_stress_gc} (quick: none and all; thorough: all 32, plus dev with all switches), built from /repo's working tree WITHOUT the verification hooks; programs: every repository script (with its module table; scripts calling clock() excluded) and every 4th/2nd program of the C05/C06/C07/C08/C18 corpora, C01's heap-shape programs and the loop-churn family; each program runs on every configuration and the printed lines and outcome (addresses normalised) must be identical. Only programs that exhaust the hooks runner's instruction budget are left out. distinct_nontrivial = distinct observed outcomes."));
     report.cov("bounds", json!({"configurations": cfgs.iter().map(|c| c.0.clone()).collect::<Vec<_>>(), "programs": n_programs}));
     report.cov("programs_compared", json!(compared));
     report.cov("programs_excluded_by_gate", json!(gated));
